@@ -397,7 +397,7 @@ def codec_exact(ctx, prog):
     R.effect_table(ctx, "C17-D1/CODEC", we, kinds, [
         (f"return b'i%de' % {d}", kinds[0], "an int is written i<decimal>e"),
         (f"return b'%d:%s' % (len({d}), {d})", kinds[1], "bytes are written <length>:<bytes>"),
-        (f"return b'%d:%s' % (len({d}), {d}.encode())", kinds[2], "text is written as its UTF-8 bytes with a length prefix"),
+        (f"return _bencode({d}.encode())", kinds[2], "text is written as the byte string of its UTF-8 encoding"),
         ("encoded_list_items = b''", kinds[3], "a list starts empty"),
         ("encoded_list_items += _bencode(item)", kinds[3], "…every item is appended in order"),
         ("return b'l%se' % encoded_list_items", kinds[3], "…and framed l…e"),
@@ -407,6 +407,17 @@ def codec_exact(ctx, prog):
         ("return b'd%se' % encoded_dict_items", kinds[4], "…and framed d…e"),
     ], "bencode writer: ")
     R.refusal_table(ctx, "C17-D1/CODEC", we, [("Cannot bencode", " and ".join("not " + k for k in kinds))], "bencode writer")
+    # <length>:<payload> — the length written is the length of exactly the bytes written after it (for text: of the ENCODED bytes, not the character count)
+    n_lp = 0
+    for b in [n for n in we.local_nodes(ast.BinOp) if isinstance(n.op, ast.Mod) and isinstance(n.left, ast.Constant) and n.left.value == b"%d:%s"]:
+        n_lp += 1
+        t = b.right
+        ok = isinstance(t, ast.Tuple) and len(t.elts) == 2 and isinstance(t.elts[0], ast.Call) and call_name(t.elts[0]) == "len" and len(t.elts[0].args) == 1 and \
+            we.expanded_text(t.elts[0].args[0], keep=(d,)) == we.expanded_text(t.elts[1], keep=(d,))
+        ctx.ob("C17-D1/CODEC", ok, we.site(b), "bencode writer: the length prefix is len() of the very bytes that follow it", func=we.fi.qualname,
+               detail="" if ok else f"prefix counts `{unparse(t.elts[0]) if isinstance(t, ast.Tuple) and t.elts else '?'}`, payload is `{unparse(t.elts[1]) if isinstance(t, ast.Tuple) and len(t.elts) > 1 else '?'}`",
+               key=f"C17-D1/CODEC|_bencode|length-of-payload|{n_lp}")
+    ctx.floor("C17-D1/CODEC", "length-prefixed writes in _bencode", n_lp, 1, site=we.site(), func=we.fi.qualname)
     lps = we.stmts(ast.For)
     ok = len(lps) == 2 and norm_text(lps[0].iter) == d and norm_text(lps[1].iter) in ("sorted(keys)", f"sorted({d}.keys())", f"sorted({d})")
     ctx.ob("C17-D1/CODEC", ok, we.site(), "bencode writer: list items in order, dict keys sorted", func=we.fi.qualname, key="C17-D1/CODEC|writer|order")
